@@ -1,0 +1,78 @@
+//go:build verif
+
+package dbft
+
+import (
+	"slices"
+	"time"
+)
+
+// This file is compiled only with the `verif` build tag. It adds read-only
+// accessors for unexported state so that external verification harnesses can
+// observe the whole state of a DBFT instance. It changes no behaviour.
+
+// VerifFlags is a snapshot of unexported Context/DBFT fields.
+type VerifFlags struct {
+	BlockProcessed     bool
+	PreBlockProcessed  bool
+	TxSubscriptionOn   bool
+	Recovering         bool
+	LastBlockTimestamp uint64
+	LastBlockTime      time.Time
+	LastBlockIndex     uint32
+	LastBlockView      byte
+	TimePerBlock       time.Duration
+	MaxTimePerBlock    time.Duration
+	PrepareSentTime    time.Time
+	RttAvg             time.Duration
+	RttIdx             int
+	HasHeader          bool
+	HasBlock           bool
+	HasPreHeader       bool
+	HasPreBlock        bool
+}
+
+// VerifFlags returns a snapshot of unexported fields.
+func (d *DBFT[H]) VerifFlags() VerifFlags {
+	return VerifFlags{
+		BlockProcessed:     d.blockProcessed,
+		PreBlockProcessed:  d.preBlockProcessed,
+		TxSubscriptionOn:   d.txSubscriptionOn,
+		Recovering:         d.recovering,
+		LastBlockTimestamp: d.lastBlockTimestamp,
+		LastBlockTime:      d.lastBlockTime,
+		LastBlockIndex:     d.lastBlockIndex,
+		LastBlockView:      d.lastBlockView,
+		TimePerBlock:       d.timePerBlock,
+		MaxTimePerBlock:    d.maxTimePerBlock,
+		PrepareSentTime:    d.prepareSentTime,
+		RttAvg:             d.rttEstimates.avg,
+		RttIdx:             d.rttEstimates.idx,
+		HasHeader:          d.header != nil,
+		HasBlock:           d.block != nil,
+		HasPreHeader:       d.preHeader != nil,
+		HasPreBlock:        d.preBlock != nil,
+	}
+}
+
+// VerifCachedPayloads lists the payloads kept for future heights/views for
+// every height present in the cache (an entry may be empty): prepare,
+// change view, pre-commit, commit classes, each ordered by validator index.
+func (d *DBFT[H]) VerifCachedPayloads() map[uint32][4][]ConsensusPayload[H] {
+	res := make(map[uint32][4][]ConsensusPayload[H], len(d.cache.mail))
+	for h, box := range d.cache.mail {
+		var e [4][]ConsensusPayload[H]
+		for k, m := range []map[uint16]ConsensusPayload[H]{box.prepare, box.chViews, box.preCommit, box.commit} {
+			idx := make([]uint16, 0, len(m))
+			for i := range m {
+				idx = append(idx, i)
+			}
+			slices.Sort(idx)
+			for _, i := range idx {
+				e[k] = append(e[k], m[i])
+			}
+		}
+		res[h] = e
+	}
+	return res
+}
